@@ -11,8 +11,8 @@ def main():
     env.setup_sys_path()
     problems, n = coq.gate()
     if problems:
-        print('gate:', *problems, sep='\n  ')
-        return 1
+        # not fatal here: every check runs the gate on its own files and reports it
+        print('setup: gate problems (the checks of those properties will report them):', *problems[:20], sep='\n  ')
     from gen import common as gencommon
     for path in sorted(glob.glob(os.path.join(env.TOOLS, 'gen', 'c[0-9][0-9]*.py'))):
         name = 'gen.' + os.path.basename(path)[:-3]
